@@ -19,6 +19,7 @@ ASSUMPTIONS = [
     'DelayOnError schedule theorem: 0 <= InitialInterval <= MaxInterval, Multiplier = num/den >= 1; the closed form min(Initial*m^(k-1), Max) is proved where the products are whole nanoseconds, otherwise the per-step law (multiply, round down to a whole ns, cap) and the upper bound',
     'Throttle rate is a theorem over the ticker clock model; on the implementation the same spacing predicate is evaluated per worker on wall-clock handler start times with one period of slack, and the window bound of C19_throttle_window on the whole run (lower bounds only, sound under any scheduling delay)',
     'chains with more than one Retry are compared with the model but not judged by the acceptor',
+    'deadline lower bound: theorem over the clock model Simple/Deadline.v (delays >= 0, timers never early); on the implementation block_ok is evaluated on wall-clock Done() times with 1 ms slack (lower bound only)',
 ]
 
 def N(n): return C.coq_N(n)
